@@ -111,6 +111,21 @@ fn length_case(em: &mut Emitter, n: usize, fill: u8, form: &[u8]) {
     });
 }
 
+
+/// 504: an OCTET STRING or character string in any of its BER shapes (primitive, constructed with definite or
+/// indefinite length, nested, empty) offered to the DER decoder: whatever is accepted re-encodes to itself.
+fn string_case(em: &mut Emitter, kind: u8, data: &[u8]) {
+    em.case(504, &[num_arg(kind), bytes_arg(data)], || {
+        macro_rules! rt { ($t:ty) => {{ Constructed::decode(data.into_source(), Mode::Der, |cons| <$t>::take_from(cons)).ok().map(|v| {
+            let mut out = Vec::new(); bcder::encode::Values::write_encoded(&v.encode_ref(), Mode::Der, &mut out).unwrap(); out }) }}; }
+        let r = catch(|| match kind { 0 => rt!(bcder::OctetString), 1 => rt!(bcder::Utf8String), 2 => rt!(bcder::Ia5String), 3 => rt!(bcder::PrintableString), _ => rt!(bcder::NumericString) });
+        (Ints::new().n(1), match r {
+            Some(Some(w)) => if w == data { Oracle::Pass } else { Oracle::Fail("der-reencoding-differs-from-accepted-input".into()) },
+            Some(None) => if data[0] & 0x20 == 0 && data.len() == 2 + data[1] as usize && data[1] < 0x80 && data[2..].iter().all(|&b| b == b'1') { Oracle::Fail("rejects-a-der-string".into()) } else { Oracle::Pass },
+            None => Oracle::Fail("panic".into()) }, true)
+    });
+}
+
 pub fn run(em: &mut Emitter, rng: &mut Rng, thorough: bool) {
     for &n in &[0usize, 1, 2, 126, 127, 128, 129, 200, 255, 256, 257, 1000, 4095, 4096, 4097, 5000, 32768, 65534, 65535, 65536, 70000] {
         for f in length_forms(n) { length_case(em, n, rng.byte(), &f); }
@@ -127,6 +142,26 @@ pub fn run(em: &mut Emitter, rng: &mut Rng, thorough: bool) {
     let mut longs: Vec<Vec<u8>> = Vec::new();
     long_contents(rng, 18, &mut |c| longs.push(c.to_vec()));
     for c in &longs { for &ty in &tys { leaf_case(em, ty, c); } }
+    // ---- 504: strings in every BER shape under DER ----
+    let stags: [u8; 5] = [0x04, 0x0c, 0x16, 0x13, 0x12];
+    for kind in 0..5u8 {
+        let t = stags[kind as usize];
+        let shapes: Vec<crate::c16::Os> = {
+            use crate::c16::Os::*;
+            let p = |n: usize| Prim(vec![b'1'; n]);
+            vec![p(0), p(1), p(5), p(127), p(128), Cons(false, vec![]), Cons(true, vec![]), Cons(false, vec![p(1)]), Cons(true, vec![p(1)]), Cons(false, vec![p(0)]),
+                 Cons(false, vec![p(2), p(3)]), Cons(true, vec![p(2), p(3)]), Cons(false, vec![Cons(false, vec![p(1)])]), Cons(false, vec![Cons(true, vec![p(1)]), p(1)]),
+                 Cons(true, vec![Cons(false, vec![p(1)])]), Cons(false, vec![p(1000), p(1)])]
+        };
+        for o in &shapes { let mut d = Vec::new(); crate::c16::os_encode(o, t, &mut d); string_case(em, kind, &d);
+                           let mut d2 = Vec::new(); crate::c16::os_encode_forms(o, t, &mut d2, rng); string_case(em, kind, &d2); }
+        for _ in 0..(if thorough { 20_000 } else { 400 }) {
+            let n = rng.below(6) as usize; let b = vec![b'1'; n];
+            let o = crate::c18::split_os(rng, &b, 2);
+            let mut d = Vec::new(); if rng.bool() { crate::c16::os_encode(&o, t, &mut d); } else { crate::c16::os_encode_forms(&o, t, &mut d, rng); }
+            string_case(em, kind, &d);
+        }
+    }
     // the typed-record variants are produced by the C04 generator (stream 502)
     crate::c04::run(em, rng, false);
 }
